@@ -10,6 +10,9 @@ Statements only; lemmas are in Preflate/Proofs/Predict*.lean.
 import Preflate.Proofs.Predict
 import Preflate.Proofs.Expands
 import Preflate.Proofs.Stream
+import Preflate.Proofs.OpsWF
+import Preflate.Proofs.ChainsBounded
+import Preflate.Props.C10
 import Preflate.Gen.Consts
 namespace Preflate
 
@@ -89,6 +92,55 @@ theorem decompress_prefix (est : Array Nat → List Block → R Params) (mk : Pa
     (h : decompressStream est mk verify d = .ok r) (x : List UInt8) :
     decompressStream est mk verify (d.take r.size ++ x) = .ok r :=
   Proofs.decompress_prefix est mk verify d r h x
+
+/-- every operation the analysis emits is one the codec theorem (C10) covers: widths 1..16 with
+    fitting values, contexts inside the enums, corrections below 2^31 — for ANY predictor whose
+    predicted lengths and bit lengths stay below 2^30 (`PredBounded`; false for unbounded predictors:
+    `Proofs.Counter.cxTok_not_wf`, `cxLen_not_wf`), on plaintexts below 2^31 - 1 bytes (tight:
+    `Proofs.Counter.token_count_counterexample` — a block of 2^31 - 1 tokens makes the codec compute
+    `1u32 << 32`; the code's 2 GiB guard keeps accepted streams below that) -/
+theorem analysis_ops_wf (P : Pred H) (hb : PredBounded P) (plain : Array Nat) (blocks : List Block)
+    (pad : Nat) (hv : StreamValid plain blocks) (hpad : pad < 256) (hsize : plain.size < 2 ^ 31 - 1)
+    (ops : List Op) (he : encStream P plain blocks pad = .ok ops) : ∀ o ∈ ops, o.WF :=
+  Proofs.encStream_ops_wf P hb plain blocks pad hv hpad hsize ops he
+
+/-- the executable predictor (seven hashes, u16 chains, lazy matching, zlib length calculator with
+    its `Vec<u8>` result type) is bounded, for every parameter vector -/
+theorem chains_pred_bounded (p : Params) : PredBounded (Chains.pred p) :=
+  Proofs.chains_pred_bounded p
+
+/-- BYTE LEVEL, end to end: whenever the split returns Ok(r) (either verify setting; plaintext below
+    2 GiB, which the code's guard enforces), the corrections r.corr encode to bytes; read back through
+    the bool coder under the encoder's context sequence those bytes yield the encoder's decisions
+    (`vp8_lossless`), which decode under the encoder's kind sequence to exactly r.corr
+    (`decode_encode`); and reconstruction from r.corr returns exactly D[..r.size]. The decoders'
+    demands are modelled by check-and-fail (asking for a context / kind other than the next item's is
+    a failure), so success means a demand-driven decoder asks exactly these sequences. -/
+theorem decompress_bytes_chain (est : Array Nat → List Block → R Params) (mk : Params → Pred H)
+    (hest : ∀ pl bl q, est pl bl = .ok q → EstimatorRange q) (hb : ∀ q, PredBounded (mk q))
+    (verify : Bool) (d : List UInt8) (hd : d.length < 2 ^ 29) (r : StreamResult)
+    (h : decompressStream est mk verify d = .ok r) (hsize : r.plain.size < 2 ^ 31 - 1) :
+    ∃ evs bytes, encodeOps 0 r.corr = .ok evs ∧ encodeBytes r.corr = .ok bytes ∧
+      decodeOps 0 (r.corr.map Op.kind) (VP8.readEvents bytes (evs.map (·.ctx))) = .ok (r.corr, 0, []) ∧
+      recompressStream mk r.plain r.corr = .ok (d.take r.size) := by
+  have hrec := (recompress_decompress est mk hest verify d hd r h).1
+  obtain ⟨p, params, hdr, body, h1, h2, h3, h4, rfl⟩ := Proofs.decompressStream_ok h
+  have hl := Proofs.length_bytesToBits d
+  obtain ⟨hv, hpad⟩ := Proofs.parse_valid (bytesToBits d) (by omega) p h1
+  obtain ⟨ops, e1, _, hwf1⟩ := Proofs.readParams_writeParams params
+    (Proofs.estimatorRange_wf params (hest _ _ _ h2)) []
+  rw [h3] at e1
+  simp only [Except.ok.injEq] at e1
+  subst e1
+  have hwf2 := Proofs.encStream_ops_wf (mk params) (hb params) p.plain p.blocks p.eofPadding hv hpad
+    hsize body h4
+  have hwf : ∀ o ∈ hdr ++ body, o.WF := by
+    intro o ho
+    rcases List.mem_append.mp ho with ho | ho
+    · exact hwf1 o ho
+    · exact hwf2 o ho
+  obtain ⟨evs, bytes, e1, e2, _, e4⟩ := bytes_roundtrip (hdr ++ body) hwf
+  exact ⟨evs, bytes, e1, e2, e4, hrec⟩
 
 /-- Non-vacuity: with a predictor that always predicts a literal and a fixed in-range parameter
     vector, the one-literal fixed-Huffman stream 4b 04 00 (followed by junk) is accepted with verify on. -/
